@@ -7,6 +7,7 @@ for p in sorted(glob.glob('/verif/seeded/*/meta.json')):
     esc=lambda s: s.replace('|','\\|').replace('\n',' ')
     rows.append("| %s | %s — *%s* | %s |"%(m['property']+(" (round %d)"%m['round'] if m.get('round',1)>1 else ""),esc(m['change']),esc(m['needs_to_manifest']),esc(m['caught_by'])))
 n=len(rows)
+notcaught=sum(1 for p in glob.glob('/verif/seeded/*/meta.json') if json.load(open(p))['caught_by'].startswith('NOT CAUGHT'))
 missed=sum(1 for p in glob.glob('/verif/seeded/*/meta.json') if 'at first' in json.load(open(p))['caught_by'] or 'first reported' in json.load(open(p))['caught_by'] or 'first run' in json.load(open(p))['caught_by'])
 table="| property | seeded change — *what it needs to manifest* | caught by (and what had to be strengthened) |\n|---|---|---|\n"+"\n".join(rows)+"\n"
 s=open('/verif/DESIGN.md').read()
@@ -22,12 +23,14 @@ tests of the packages it touches (and, per the seeder, the broader suite) and co
 with the change and passes without it; all of that was re-confirmed by the main session in a scratch worktree
 (`tools/confirm_seeds.sh`). They are kept in `/verif/seeded/<ID>/` (patch.diff, demonstration, meta.json, the seeder's
 notes). `tools/try_all_seeds.sh` applies each one to /repo, runs the quick check of its property and undoes it. Result
-at the registered quick bounds: **%d of %d are reported as `VIOLATION` with a replayed counterexample** (native replay;
+at the registered quick bounds: **%d of %d are reported as `VIOLATION` with a replayed counterexample** (the exception, C30
+round 2, changes an SQL statement executed by SQLite, which the engine cannot run and which C30 states as outside its
+claim; native replay;
 for schedule counterexamples deterministic re-execution in the engine, §2.9); %d were missed or not reported as a
 violation by the first version of the checks and led to the strengthening noted in the last column (no check was
 loosened).
 
-"""%(n,n,n,missed)
+"""%(n,n-notcaught,n,missed)
 s=s[:a]+intro+table+"\n"+s[b:]
 open('/verif/DESIGN.md','w').write(s)
 print(n,"seeds,",missed,"needed strengthening")
